@@ -1030,6 +1030,8 @@ func encodeCmdRun(c *run.Ctx, r *kit.Rng, s *kit.Summary, n int) {
 	}
 	var jobs []job
 	var ops []string
+	var opIdx []int // jobs[i] is ops[opIdx[i]]
+	var extra []string
 	for i := 0; i < n; i++ {
 		// the CSV domain is the intersection of the three domains (UTC timestamps)
 		rs, shape := genShaped(r, "csv")
@@ -1056,7 +1058,38 @@ func encodeCmdRun(c *run.Ctx, r *kit.Rng, s *kit.Summary, n int) {
 					continue // all nine pairs on the sensitive shape, a third of them elsewhere
 				}
 				out := filepath.Join(c.Work, fmt.Sprintf("enc-%d-%s-%s.out", i, from, to))
-				jobs = append(jobs, job{rs, from, to, in, out, shape})
+				// the output path may exist already: junk, a longer valid stream (same or another encoding), or
+				// the output of the same conversion run before on a longer input
+				longer := append(append(append([]vegeta.Result{}, rs...), rs...), rs...)
+				before := "nothing"
+				switch len(jobs) % 5 {
+				case 1:
+					before = "junk"
+					junk := make([]byte, 20000+len(enc)*2)
+					for q := range junk {
+						junk[q] = byte(q*7 + q/251)
+					}
+					os.WriteFile(out, junk, 0o644)
+				case 2:
+					before = "longer " + to + " stream"
+					old, _ := encodeAll(codecs[to], longer)
+					os.WriteFile(out, old, 0o644)
+				case 3:
+					other := names[(ti+1)%3]
+					before = "longer " + other + " stream"
+					old, _ := encodeAll(codecs[other], longer)
+					os.WriteFile(out, old, 0o644)
+				case 4:
+					before = "same conversion run before on a longer input"
+					old, _ := encodeAll(codecs[from], longer)
+					in2 := filepath.Join(c.Work, fmt.Sprintf("enc-%d-%s-%s.in2", i, from, to))
+					os.WriteFile(in2, old, 0o644)
+					extra = append(extra, in2)
+					ops = append(ops, "encode "+kit.HexS(to)+" "+kit.HexS(out)+" "+kit.HexS(in2))
+				}
+				s.Count("encode-command:output-path-held-before=" + before)
+				opIdx = append(opIdx, len(ops))
+				jobs = append(jobs, job{rs, from, to, in, out, shape + "; output path held before: " + before})
 				ops = append(ops, "encode "+kit.HexS(to)+" "+kit.HexS(out)+" "+kit.HexS(in))
 			}
 		}
@@ -1096,8 +1129,8 @@ func encodeCmdRun(c *run.Ctx, r *kit.Rng, s *kit.Summary, n int) {
 			if len(op) > 300 {
 				op = op[:300] + "…"
 			}
-			if len(f) != 2 || f[0] != strings.Fields(res[i] + " x")[0] {
-				s.Diverge("encode-command-model", op, res[i], mouts[q][:min(len(mouts[q]), 200)])
+			if len(f) != 2 || f[0] != strings.Fields(res[opIdx[i]] + " x")[0] {
+				s.Diverge("encode-command-model", op, res[opIdx[i]], mouts[q][:min(len(mouts[q]), 200)])
 				continue
 			}
 			mb := kit.UnHex(f[1])
@@ -1114,11 +1147,11 @@ func encodeCmdRun(c *run.Ctx, r *kit.Rng, s *kit.Summary, n int) {
 	}
 	for i, j := range jobs {
 		s.Count("encode-command:" + j.from + "->" + j.to)
-		s.Count("encode-command:shape=" + j.shape)
+		s.Count("encode-command:shape=" + strings.SplitN(j.shape, ";", 2)[0])
 		s.Case(fmt.Sprint("encode-cmd:", j.from, j.to, mkInput(j.to, j.rs)), nontrivial(j.rs))
-		in := map[string]interface{}{"command": "vegeta encode -to " + j.to + " -output OUT IN", "from": j.from, "to": j.to, "codec": j.from, "results": mkInput(j.from, j.rs).Results, "encode_command": true}
-		if res[i] != "ok" {
-			s.Violate(kit.Violation{Kind: "encode_command", What: "`vegeta encode` failed on a stream written by the result encoders", Input: in, Observed: res[i], Key: map[string]interface{}{"from": j.from, "to": j.to}})
+		in := map[string]interface{}{"command": "vegeta encode -to " + j.to + " -output OUT IN", "from": j.from, "to": j.to, "codec": j.from, "results": mkInput(j.from, j.rs).Results, "encode_command": true, "stream": j.shape}
+		if res[opIdx[i]] != "ok" {
+			s.Violate(kit.Violation{Kind: "encode_command", What: "`vegeta encode` failed on a stream written by the result encoders", Input: in, Observed: res[opIdx[i]], Key: map[string]interface{}{"from": j.from, "to": j.to}})
 			continue
 		}
 		data, _ := os.ReadFile(j.out)
@@ -1142,6 +1175,9 @@ func encodeCmdRun(c *run.Ctx, r *kit.Rng, s *kit.Summary, n int) {
 	}
 	for _, j := range jobs {
 		os.Remove(j.in)
+	}
+	for _, f := range extra {
+		os.Remove(f)
 	}
 }
 
